@@ -20,5 +20,7 @@ TAGCHARS = ("Oracle/TagChars", "TagChars")
 CONSTS = ("Gen/Consts", "Consts")
 MAPRANGES = ("Gen/MapRanges", "MapRanges")
 PASSFACTS = ("Gen/PassFacts", "PassFacts")
+# C15: measured (go build + execution through an assembly trampoline): does the assembler save/restore BP
+ASMBP = ("Oracle/AsmBP", "AsmBP")
 
-ALL_MODULES = [PASSFACTS, MAPRANGES, TEXTFLAGS, TEXTFLAGH, REGS, REGHW] + forms_modules() + ctors_modules() + [MOV, TAGCHARS, CONSTS]
+ALL_MODULES = [PASSFACTS, MAPRANGES, TEXTFLAGS, TEXTFLAGH, REGS, REGHW] + forms_modules() + ctors_modules() + [MOV, TAGCHARS, CONSTS, ASMBP]
